@@ -1231,3 +1231,14 @@ func fieldOfStructValue(w ssa.Value, i int, at ssa.Instruction, d int) ([]origin
 	}
 	return nil, false
 }
+
+// isSentinelErrorVar: a package-level variable of type error named Err*/err* (ErrLockBusy, errNoReadyTasks): its value is
+// a fixed non-nil error.
+func isSentinelErrorVar(g *ssa.Global) bool {
+	pt, ok := g.Type().Underlying().(*types.Pointer)
+	if !ok || pt.Elem().String() != "error" {
+		return false
+	}
+	n := g.Name()
+	return strings.HasPrefix(n, "Err") || strings.HasPrefix(n, "err")
+}
